@@ -27,6 +27,11 @@ CLIENT_OPS = ["bind_simple", "bind_sasl", "search", "extended", "unbind", "drain
 SERVER_OPS = ["bind_response", "extended_response", "notice", "search_entry", "search_reference", "search_done",
               "unbind", "drain", "drain_none",
               "recv_bind_request", "recv_search_request", "recv_extended_request", "recv_unbind", "recv_extended_response"]
+# the same operations carrying a paged-results control with a symbolic non-empty cookie ("@p"):
+# controls are an argument of every call and a field of every message, and must not influence the
+# session rules.  Used in the inductive step and in BMC of depth <= 2.
+CLIENT_OPS_CTL = ["search@p", "extended@p", "recv_search_done@p", "recv_search_entry@p", "recv_bind_response@p", "recv_extended_response@p"]
+SERVER_OPS_CTL = ["search_done@p", "search_entry@p", "extended_response@p", "bind_response@p", "recv_search_request@p", "recv_bind_request@p"]
 
 
 def po(ctx):
@@ -75,6 +80,10 @@ def pre_shapes(side):
         for searches in ([()] if n == 0 else [(), (0,)] if n == 1 else [(), (0,), (0, 1)]):
             out.append(("OPENED", n, searches))
     out += [("BINDING", 0, ()), ("BINDING", 1, ()), ("CLOSED", 0, ())]
+    if side == "server":
+        # a search answered with a non-search final response stays in the search registry
+        # (reachable through the public API; see reach_server): "stale" ids, negative markers
+        out += [("OPENED", 0, (-1,)), ("OPENED", 1, (-1,)), ("OPENED", 1, (0, -1))]
     return out
 
 
@@ -82,10 +91,16 @@ def make_pre(ctx, side, pshape, tag="pre"):
     """-> session in the abstract pre-state (state, |O|, searches) with symbolic ids"""
     state, n, searches = pshape
     S = ctx.L.session
+    stale_n = sum(1 for x in searches if x < 0)
+    searches = tuple(x for x in searches if x >= 0)
     ids = [ctx.int(f"{tag}.id{i}", 1 if side == "client" else 0, IDMAX) for i in range(n)]
+    stale = [ctx.int(f"{tag}.stale{i}", 0, IDMAX) for i in range(stale_n)]
     for i in range(n):
         for j in range(i):
             ctx.assume(ids[i] != ids[j])
+    for x in stale:
+        for y in ids:
+            ctx.assume(x != y)
     if side == "client":
         lo = 1 if state in ("BEFORE_OPEN", "CLOSED") else 2
         c = ctx.int(f"{tag}.counter", lo, IDMAX + 1)
@@ -103,14 +118,14 @@ def make_pre(ctx, side, pshape, tag="pre"):
         sess = S.LDAPClient() if side == "client" else S.LDAPServer()
         sess.state = getattr(S.SessionState, state)
         sess._outstanding_requests = V.SSet(ids)
-        sess._search_requests = V.SSet([ids[i] for i in searches])
+        sess._search_requests = V.SSet([ids[i] for i in searches] + stale)
         if side == "client":
             sess._message_counter = c
         return sess
     if side == "client":
         sess = reach_client(ctx, state, ids, [ids[i] for i in searches], c)
     else:
-        sess = reach_server(ctx, state, ids, [ids[i] for i in searches])
+        sess = reach_server(ctx, state, ids, [ids[i] for i in searches], stale)
     return sess
 
 
@@ -141,10 +156,13 @@ def reach_client(ctx, state, ids, searches, counter):
     return c
 
 
-def reach_server(ctx, state, ids, searches):
+def reach_server(ctx, state, ids, searches, stale=()):
     S, M, F = ctx.L.session, ctx.L.messages, ctx.L.filter
     A = ctx.L.auth
     s = S.LDAPServer()
+    for x in stale:
+        s.receive(M.SearchRequest(x, [], "", M.SearchScope.BASE, M.DereferencingPolicy.NEVER, 0, 0, False, F.FilterPresent("o"), []).pack(po(ctx)))
+        s.extended_response(x)
     if state == "BINDING":
         bid = ids[0] if ids else 7
         s.receive(M.BindRequest(bid, [], 3, "", A.SaslCredential("X", b"t")).pack(po(ctx)))
@@ -206,30 +224,31 @@ def result(ctx, code):
     return M.LDAPResult(M.LDAPResultCode(code), "", "")
 
 
-def message_for(ctx, op, mid, code):
+def message_for(ctx, op, mid, code, ctl=None):
     """the message a peer would send for a recv_* op"""
     M, F, A = ctx.L.messages, ctx.L.filter, ctx.L.auth
     k = op[5:]
+    ctl = list(ctl or [])
     if k == "bind_response":
-        return M.BindResponse(mid, [], result(ctx, code), None)
+        return M.BindResponse(mid, ctl, result(ctx, code), None)
     if k == "search_entry":
-        return M.SearchResultEntry(mid, [], "cn=a", [])
+        return M.SearchResultEntry(mid, ctl, "cn=a", [])
     if k == "search_reference":
-        return M.SearchResultReference(mid, [], ["ldap://x"])
+        return M.SearchResultReference(mid, ctl, ["ldap://x"])
     if k == "search_done":
-        return M.SearchResultDone(mid, [], result(ctx, code))
+        return M.SearchResultDone(mid, ctl, result(ctx, code))
     if k == "extended_response":
-        return M.ExtendedResponse(mid, [], result(ctx, code), "1.2", None)
+        return M.ExtendedResponse(mid, ctl, result(ctx, code), "1.2", None)
     if k == "notice":
-        return M.ExtendedResponse(mid, [], result(ctx, code), NOTICE, None)
+        return M.ExtendedResponse(mid, ctl, result(ctx, code), NOTICE, None)
     if k == "extended_request":
-        return M.ExtendedRequest(mid, [], "1.2", None)
+        return M.ExtendedRequest(mid, ctl, "1.2", None)
     if k == "unbind":
-        return M.UnbindRequest(mid, [])
+        return M.UnbindRequest(mid, ctl)
     if k == "bind_request":
-        return M.BindRequest(mid, [], 3, "", A.SimpleCredential("p"))
+        return M.BindRequest(mid, ctl, 3, "", A.SimpleCredential("p"))
     if k == "search_request":
-        return M.SearchRequest(mid, [], "", M.SearchScope.BASE, M.DereferencingPolicy.NEVER, 0, 0, False, F.FilterPresent("o"), [])
+        return M.SearchRequest(mid, ctl, "", M.SearchScope.BASE, M.DereferencingPolicy.NEVER, 0, 0, False, F.FilterPresent("o"), [])
     raise ValueError(op)
 
 
@@ -240,7 +259,11 @@ def do_op(ctx, sess, side, op, tag):
     """perform one public call with symbolic arguments.
     -> dict(kind, ret|exc, args...)"""
     M = ctx.L.messages
-    info = {"op": op}
+    op, _, variant = op.partition("@")
+    info = {"op": op, "variant": variant}
+    ctl = None
+    if variant == "p":
+        ctl = [ctx.L.controls.PagedResultControl(False, ctx.int(f"{tag}.psize", 0, 100), ctx.bytes(f"{tag}.cookie", 1))]
     try:
         if op == "drain":
             a = ctx.int(f"{tag}.amount", -4, 40)
@@ -262,7 +285,7 @@ def do_op(ctx, sess, side, op, tag):
             mid = ctx.int(f"{tag}.mid", 0, IDMAX + 2)
             code = ctx.int(f"{tag}.code", 0, 80)
             info["mid"], info["code"] = mid, code
-            msg = message_for(ctx, op, mid, code)
+            msg = message_for(ctx, op, mid, code, ctl)
             info["msg"] = msg
             info["ret"] = sess.receive(msg.pack(po(ctx)))
         elif side == "client":
@@ -272,12 +295,12 @@ def do_op(ctx, sess, side, op, tag):
             elif op == "bind_sasl":
                 info["ret"] = sess.bind_sasl("GSSAPI", t, ctx.bytes(f"{tag}.cred", 1))
             elif op == "search":
-                info["ret"] = sess.search_request(t)
+                info["ret"] = sess.search_request(t, controls=ctl)
             elif op == "search_unencodable":
                 # the base DN holds a lone surrogate: encoding fails inside pack(), after validation
                 info["ret"] = sess.search_request("dc=\udc00x", attributes=["cn"])
             elif op == "extended":
-                info["ret"] = sess.extended_request("1.2", ctx.bytes(f"{tag}.val", 1))
+                info["ret"] = sess.extended_request("1.2", ctx.bytes(f"{tag}.val", 1), controls=ctl)
             else:
                 raise ValueError(op)
         else:
@@ -286,17 +309,17 @@ def do_op(ctx, sess, side, op, tag):
             info["mid"], info["code"] = mid, code
             rc = M.LDAPResultCode(code)
             if op == "bind_response":
-                info["ret"] = sess.bind_response(mid, None, rc)
+                info["ret"] = sess.bind_response(mid, None, rc, controls=ctl)
             elif op == "extended_response":
-                info["ret"] = sess.extended_response(mid, "1.2", None, rc)
+                info["ret"] = sess.extended_response(mid, "1.2", None, rc, controls=ctl)
             elif op == "notice":
                 info["ret"] = sess.extended_response(mid, NOTICE, None, rc)
             elif op == "search_entry":
-                info["ret"] = sess.search_result_entry(mid, "cn=a", [])
+                info["ret"] = sess.search_result_entry(mid, "cn=a", [], controls=ctl)
             elif op == "search_reference":
                 info["ret"] = sess.search_result_reference(mid, ["ldap://x"])
             elif op == "search_done":
-                info["ret"] = sess.search_result_done(mid, rc)
+                info["ret"] = sess.search_result_done(mid, rc, controls=ctl)
             else:
                 raise ValueError(op)
     except Exception as e:  # noqa: BLE001
@@ -405,11 +428,19 @@ def _client(ctx, pre, info, post, appended, rejected, req, fail, props):
         req("C09", ctx.all(in_set(ctx, ret, post["O"]), len(post["O"]) == len(O) + 1), "request-not-recorded-outstanding")
         exp_S = S + [ret] if op == "search" else S
         req("C09", set_eq(ctx, post["S"], exp_S), "search-bookkeeping-after-request")
+        kind = {"bind_simple": "bindRequest", "bind_sasl": "bindRequest", "search": "searchRequest", "extended": "extendedReq"}[op]
         if "C09" in props:
             m = _decode_appended(ctx, appended, "C09")
             req("C09", m["id"] == ret, "emitted-message-id-differs-from-returned-id")
-            kind = {"bind_simple": "bindRequest", "bind_sasl": "bindRequest", "search": "searchRequest", "extended": "extendedReq"}[op]
             req("C09", m["op"][0] == kind, "emitted-message-kind")
+        if "C12" in props:
+            # the stream is the concatenation of the successful sends: this one contributes exactly
+            # one complete message (its own) at the end of what is pending
+            if not len(appended):
+                fail("C12", "successful-send-contributed-nothing-to-the-stream:" + op)
+            else:
+                m = _decode_appended(ctx, appended, "C12")
+                req("C12", ctx.all(m["id"] == ret, m["op"][0] == kind), "successful-send-contributed-something-else:" + op)
         return
     if op == "unbind":
         if rejected:
@@ -423,6 +454,8 @@ def _client(ctx, pre, info, post, appended, rejected, req, fail, props):
                 req("C08", m["op"][0] == "unbindRequest", "unbind-emits-something-else")
             else:
                 fail("C08", "unbind-emits-nothing")
+        if "C12" in props and not len(appended):
+            fail("C12", "successful-send-contributed-nothing-to-the-stream:unbind")
         return
     # ---- receive
     if op.startswith("recv2_"):
@@ -528,12 +561,21 @@ def _server(ctx, pre, info, post, appended, rejected, req, fail, props):
     if not ctx.is_true(in_O):
         req("C10", rejected, "response-emitted-for-a-request-that-is-not-outstanding")
         return
+    is_search_op = op in ("search_entry", "search_reference", "search_done")
     if rejected:
+        if is_search_op != bool(ctx.is_true(in_set(ctx, x, S))):
+            return  # a response whose kind does not match the request: the property allows refusing it
         fail("C10", "response-to-outstanding-request-refused", f"{info['exc_name']}@{info['exc_site']}")
         return
     if "C10" in props:
         m = _decode_appended(ctx, appended, "C10")
         req("C10", m["id"] == x, "emitted-response-id")
+    if "C12" in props:
+        if not len(appended):
+            fail("C12", "successful-send-contributed-nothing-to-the-stream:" + op)
+        else:
+            m = _decode_appended(ctx, appended, "C12")
+            req("C12", m["id"] == x, "successful-send-contributed-something-else:" + op)
     final = op in ("bind_response", "extended_response", "notice", "search_done")
     if final:
         req("C10", ctx.neg(in_set(ctx, x, post["O"])), "final-response-did-not-retire-the-request")
@@ -554,12 +596,12 @@ def _server(ctx, pre, info, post, appended, rejected, req, fail, props):
 # ---------------------------------------------------------------------- units shared by C08/C09/C10/C12
 def step_units(tier, ops_filter=None):
     us = []
-    for side, ops in (("client", CLIENT_OPS), ("server", SERVER_OPS)):
+    for side, ops in (("client", CLIENT_OPS + CLIENT_OPS_CTL), ("server", SERVER_OPS + SERVER_OPS_CTL)):
         for ps in pre_shapes(side):
             for op in ops:
                 if ops_filter and not ops_filter(side, op):
                     continue
-                us.append({"name": f"step_{side}_{ps[0]}_{ps[1]}{''.join(map(str, ps[2]))}_{op}", "shape": {"kind": "step", "side": side, "pre": [ps[0], ps[1], list(ps[2])], "op": op}})
+                us.append({"name": f"step_{side}_{ps[0]}_{ps[1]}{''.join('s' if x < 0 else str(x) for x in ps[2])}_{op}", "shape": {"kind": "step", "side": side, "pre": [ps[0], ps[1], list(ps[2])], "op": op}})
     return us
 
 
@@ -567,7 +609,7 @@ def bmc_units(tier, depth, ops_filter=None):
     import itertools
 
     us = []
-    for side, ops in (("client", CLIENT_OPS), ("server", SERVER_OPS)):
+    for side, ops in (("client", CLIENT_OPS + (CLIENT_OPS_CTL if depth <= 2 else [])), ("server", SERVER_OPS + (SERVER_OPS_CTL if depth <= 2 else []))):
         ops = [o for o in ops if not ops_filter or ops_filter(side, o)]
         for seq in itertools.product(ops, repeat=depth):
             us.append({"name": f"bmc_{side}_" + "+".join(seq), "shape": {"kind": "bmc", "side": side, "ops": list(seq)}})
